@@ -19,6 +19,8 @@ CONSTANTS MaxParams,     \* longest signature
           Extras,        \* surplus keyword names tried, e.g. {"x1", "x2"}
           Matrix,        \* "code": the table as in binding.py;  "pinned": the table of the pinned snapshot
           ElseKey,       \* TRUE: the `else k` arms of the pinned snapshot (returns the key, not the value)
+          NameKeys,      \* "named": only pos-or-keyword / keyword-only parameters are registered by name;
+                         \* "all": every parameter name is a key of the routine table (pinned snapshot)
           Unannotated,   \* TRUE: also explore signatures with unannotated parameters
           Emit
 
@@ -48,9 +50,11 @@ Has(s, k) == \E i \in 1..Len(s) : s[i].kind = k
 Named(s) == {i \in 1..Len(s) : s[i].kind \in {"po", "pk", "ko"}}
 
 \* a call: number of positional arguments and the set of keyword names
-Calls(s) == [npos : 0..(NP(s) + MaxExtraPos), kw : SUBSET ({Name(i) : i \in Named(s)} \cup Extras)]
+\* keyword names tried: every parameter's own name (also *args / **kwargs / positional-only names, which
+\* Python hands to **kwargs when there is one) and the surplus names
+Calls(s) == [npos : 0..(NP(s) + MaxExtraPos), kw : SUBSET ({Name(i) : i \in 1..Len(s)} \cup Extras)]
 
-ParamOfName(s, n) == IF \E i \in Named(s) : Name(i) = n THEN CHOOSE i \in Named(s) : Name(i) = n ELSE 0
+ParamOfName(s, n) == IF \E i \in 1..Len(s) : Name(i) = n THEN CHOOSE i \in 1..Len(s) : Name(i) = n ELSE 0
 
 (************************* reference layer *********************************)
 \* target parameter of positional argument j (1-based); 0 = TypeError
@@ -60,7 +64,7 @@ PosTarget(s, j) == IF j <= NP(s) THEN j ELSE Idx(s, "va")
 KwTarget(s, npos, n) ==
   LET i == ParamOfName(s, n) IN
   IF i = 0 THEN Idx(s, "vk")                                   \* unknown name -> **kwargs
-  ELSE IF s[i].kind = "po" THEN Idx(s, "vk")                   \* positional-only names are free for **kwargs
+  ELSE IF s[i].kind \in {"po", "va", "vk"} THEN Idx(s, "vk")    \* such names are free for **kwargs
   ELSE IF s[i].kind = "pk" /\ i <= npos THEN 0                 \* multiple values for argument
   ELSE i
 
@@ -128,12 +132,12 @@ PinnedMatrix(f) ==
 
 \* the table after the fix: commit (rows whose binder mis-routes some argument re-pointed)
 CodeMatrix(f) ==
-  CASE f = <<F,F,T,T,T>> -> "AnyParamKind"
+  CASE f = <<F,F,T,F,T>> -> "PosKwdArgs"
+    [] f = <<F,F,T,T,T>> -> "AnyParamKind"
     [] f = <<F,T,T,F,T>> -> "PosKwdArgs"
     [] f = <<F,T,T,T,T>> -> "AnyParamKind"
     [] f = <<T,F,F,T,T>> -> "PosKwdKwargs"
     [] f = <<T,F,T,F,T>> -> "PosKwdArgs"
-    [] f = <<T,T,F,F,T>> -> "PosKwd"
     [] f = <<T,T,F,T,F>> -> "PosKwdKwargs"
     [] OTHER -> PinnedMatrix(f)
 
@@ -143,8 +147,10 @@ BinderOf(s) == IF Matrix = "pinned" THEN PinnedMatrix(Flags(s)) ELSE CodeMatrix(
 ByIndex(s, i0) == IF i0 + 1 <= Len(s) THEN Conv(s, i0 + 1) ELSE "raw"
 VarPos(s) == IF Has(s, "va") THEN Conv(s, Idx(s, "va")) ELSE "TypeError"     \* None(v) -> TypeError
 VarKwd(s) == IF Has(s, "vk") THEN Conv(s, Idx(s, "vk")) ELSE "TypeError"
-\* binding[k] for a string key: EVERY parameter name is a key (also *args / **kwargs names)
-ByName(s, n) == IF \E i \in 1..Len(s) : Name(i) = n THEN Conv(s, CHOOSE i \in 1..Len(s) : Name(i) = n) ELSE "absent"
+\* binding[k] for a string key
+NameKeyed(s, i) == NameKeys = "all" \/ s[i].kind \in {"pk", "ko"}
+ByName(s, n) == IF \E i \in 1..Len(s) : Name(i) = n /\ NameKeyed(s, i)
+                THEN Conv(s, CHOOSE i \in 1..Len(s) : Name(i) = n) ELSE "absent"
 
 ImplPosWith(b, s, c) ==
   LET m == PosMode(b) IN
